@@ -1,5 +1,8 @@
 import WV.Proofs.C07_Inv
 import WV.Proofs.C07_Once
+import WV.Proofs.C07_Deadline
+import WV.Proofs.C07_Live
+import WV.Proofs.C07_Cancel
 
 /-!
 C07 — transit picks exactly one connection, chosen by the sender, key holders only.
@@ -176,8 +179,8 @@ def expected (c : Conn) : Bytes :=
     received stream is a strict prefix of the expected string — so no divergent byte has been
     tolerated and no complete handshake is being sat on; (3) hence a stream that diverges from the
     expected one has been rejected (`hung up`) by the time its first divergent byte was delivered.
-    What is *not* proved here is the converse of (1) for a connection that nobody cancels
-    (`full_statement` below); the harness oracle checks it (`completed-undecided`, `go-ignored`). -/
+    The converse of (1) for a connection that nobody cancels is `handshake_prefix_exact_live` /
+    `handshake_accepts_iff` below. -/
 theorem handshake_prefix_exact_partial (i : Nat) (c : Conn)
     (hc : (run (initWorld cfg listener directs relays) evs).conns i = some c) :
     (c.negD = .ok → expected cfg c <+: c.rx) ∧
@@ -231,14 +234,43 @@ theorem handshake_prefix_exact_partial (i : Nat) (c : Conn)
   | records => exact absurd (h1 (hci.recs hst)) hn2
   | hungUp => rfl
 
-/-- the missing half of `handshake_prefix_exact`: a connection that receives the whole expected
-    string and is never cancelled, timed out or lost is accepted.  Not proved (liveness through
-    the cancel cascades); checked on the real code by the harness oracle. -/
+/-- the liveness half of `handshake_prefix_exact`: a connection waiting for the handshake (nothing
+    buffered, nobody decided yet) that is fed — in any chunking — a stream starting with the whole
+    expected string, and that nobody cancels, is accepted. -/
 def full_statement : Prop :=
   ∀ (cfg : Cfg) (w0 : Option Nat) (i : Nat) (c : Conn) (chunks : List Bytes),
     CInv cfg w0 i c → c.negD = .pending → c.state = .handshake → c.buf = [] → w0 = none →
     (cfg.expectThis ++ (if cfg.isSender then [] else Gen.Transit.GO_EXPECTED)) <+: chunks.flatten →
     (chunks.foldl (fun (p : Option Nat × Conn) d => let r := dataRecv cfg p.1 i p.2 d; (r.1.winner, r.1.c)) (w0, c)).2.negD = .ok
+
+/-- **`handshake_prefix_exact`, liveness half** — for all chunkings -/
+theorem handshake_prefix_exact_live : full_statement := by
+  intro cfg w0 i c chunks hc hn hst hbuf hw hp
+  exact feed_hs chunks w0 c hc hst hn (fun _ => hw) (by rw [hbuf]; simpa using hp)
+
+/-- **accepts iff**: for every chunking of every byte stream, a connection waiting for the
+    handshake ends up accepted (negotiation succeeded: the sender said `go`, the receiver saw
+    `go`) if and only if the stream starts with the exact expected string. -/
+theorem handshake_accepts_iff (cfg : Cfg) (i : Nat) (c : Conn) (chunks : List Bytes)
+    (hc : CInv cfg none i c) (hn : c.negD = .pending) (hst : c.state = .handshake) (hbuf : c.buf = []) :
+    (chunks.foldl (feedStep cfg i) (none, c)).2.negD = .ok ↔
+      (cfg.expectThis ++ (if cfg.isSender then [] else Gen.Transit.GO_EXPECTED)) <+: chunks.flatten := by
+  constructor
+  · intro hok
+    obtain ⟨hinv, hrx, hrel⟩ := feed_inv (cfg := cfg) (i := i) chunks none c hc
+    have hpre : pre (chunks.foldl (feedStep cfg i) (none, c)).2 = pre c := by simp [pre, hrel]
+    have hrx0 : c.rx = pre c := by rw [(hc.hs hst).2.1, hbuf]; simp
+    cases hs : cfg.isSender with
+    | true =>
+      have := (hinv.go (hinv.okS hok hs)).2.2
+      rw [hrx, hpre, hrx0] at this
+      simpa using (List.prefix_append_right_inj _).mp this
+    | false =>
+      have := hinv.okR hok hs
+      rw [hrx, hpre, hrx0, List.append_assoc] at this
+      simpa using (List.prefix_append_right_inj _).mp this
+  · intro hp
+    exact feed_hs chunks none c hc hst hn (fun _ => rfl) (by rw [hbuf]; simpa using hp)
 
 /-- **never acts on bytes after a rejection**: in `hung up`, `dataReceived` writes nothing, fires
     nothing, touches neither the state nor `_winner` — it only appends to the buffer. -/
@@ -265,13 +297,79 @@ theorem only_one_fires_once_partial :
   unfold FOK at h
   rw [h]; split <;> simp
 
-/-- the deadline statement of the design (`after 2·TIMEOUT connect() has completed`) and the
-    "cancels the rest" half of `only_one_fires_once` are not proved in Lean; the harness oracle
-    checks them on the real code (`deadline-missed`, `loser-left-open`, `selected-but-pending`). -/
+/-- **cancels the rest** (`_ThereCanBeOnlyOne._succeeded`, `InboundConnectionFactory._shutdown`,
+    `Connection._cancel`): once `connect()` has succeeded, on *every* connection the negotiation is
+    over — none stays pending — and every connection whose negotiation did not succeed is closed
+    (`loseConnection()` was called on it, or its `connectionLost` has been delivered).  Invariant
+    `TR`: a pending negotiation is always tracked (by `_pending_connections` or by the outbound
+    contender chained to it), a contender leaves `_remaining` only after it fired, and the result
+    is set only when `_remaining` is empty. -/
+theorem cancels_the_rest (i : Nat)
+    (hres : (run (initWorld cfg listener directs relays) evs).result = .ok i) (j : Nat) (c : Conn)
+    (hc : (run (initWorld cfg listener directs relays) evs).conns j = some c) :
+    c.negD ≠ .pending ∧ (c.negD ≠ .ok → 1 ≤ c.lost ∨ c.gone = true) := by
+  have hI := WInv_init cfg listener directs relays
+  have hT := TR_run hI (TR_init cfg listener directs relays) evs
+  have h8 := W8_run hI (by intro i c h; simp [initWorld] at h) evs
+  have hnp := TR_no_pending hT hres j c hc
+  refine ⟨hnp, ?_⟩
+  intro hok
+  cases hn : c.negD with
+  | pending => exact absurd hn hnp
+  | ok => exact absurd hn hok
+  | fail e => exact h8 j c hc e hn
+
+/-- … and every contender Deferred (listener, direct and relay connectors) has fired: nothing is
+    left listening, delayed, connecting or negotiating -/
+theorem contenders_all_done (i : Nat)
+    (hres : (run (initWorld cfg listener directs relays) evs).result = .ok i) (k : Nat) (q : Phase)
+    (hq : phaseOf (run (initWorld cfg listener directs relays) evs) k = some q) :
+    ∃ r x, q = .done r x := by
+  have hI := WInv_init cfg listener directs relays
+  have hT := TR_run hI (TR_init cfg listener directs relays) evs
+  obtain ⟨hrem, hs⟩ := hT.t6 i hres
+  have hk : k < (run (initWorld cfg listener directs relays) evs).cont.length := by
+    unfold phaseOf at hq
+    cases hck : (run (initWorld cfg listener directs relays) evs).cont[k]? with
+    | none => rw [hck] at hq; cases hq
+    | some _ => exact (List.getElem?_eq_some_iff.mp hck).1
+  rcases hT.t3 hs k hk with h' | ⟨_, p, h2, h3⟩
+  · rw [hrem] at h'; cases h'
+  · have : p = q := by
+      have : some p = some q := by rw [← h2]; exact hq
+      cases this; rfl
+    subst this
+    cases p <;> simp [isDone] at h3
+    exact ⟨_, _, rfl⟩
+
+/-- the deadline statement of the design: once the clock has reached `t0 + 2·TIMEOUT` (`t0` = the
+    time `connect()` was called), `connect()` has completed — with a connection or with a failure —
+    whatever else happened in between, in any order. -/
 def deadline_statement : Prop :=
   ∀ (cfg : Cfg) (l : Bool) (d : Nat) (r : List Nat) (evs : List Event),
     let w := run (initWorld cfg l d r) evs
     w.started = true → w.t0 + Gen.Transit.CONNECT_DEADLINE_s ≤ w.now → w.result ≠ .pending
+
+/-- **`deadline`**.  Invariant (`K`): while `connect()` is pending its `_not_forever` call is
+    active, is scheduled at `t0 + CONNECT_DEADLINE_s`, and lies strictly in the future; the model's
+    `Clock.advance` runs every due call, and running that one completes `connect()`. -/
+theorem deadline : deadline_statement := by
+  intro cfg l d r evs w hst hnow
+  have hK : K w := K_run (K_init cfg l d r) evs
+  intro hp
+  have hsome := hK.p2 hst hp
+  cases hd : w.deadline with
+  | none => rw [hd] at hsome; cases hsome
+  | some t =>
+    have h1 := (hK.p1.2 t hd).2
+    have h2 := hK.future t hd
+    omega
+
+/-- and `connect()`'s Deferred fires together with `_winner_d`: `_fired` implies a result -/
+theorem fired_has_result :
+    (run (initWorld cfg listener directs relays) evs).fired = true →
+    (run (initWorld cfg listener directs relays) evs).result ≠ .pending :=
+  (K_run (K_init cfg listener directs relays) evs).p1.1
 
 end
 
@@ -312,5 +410,14 @@ example :
     let w := run (initWorld (toyCfg true) true 1 []) [.connect, .inbound, .data 0 [7, 7], .advance 119, .advance 1]
     w.result = .fail .cancelled ∧ w.firedCount = 1 := by
   decide
+
+
+/-- the hypotheses of `handshake_accepts_iff` / `full_statement` hold for a freshly started
+    connection (`startNegotiation` on a new `Connection`, no relay) -/
+example : ∃ c, CInv (toyCfg true) none 0 c ∧ c.negD = .pending ∧ c.state = .handshake ∧ c.buf = [] := by
+  refine ⟨(startNegotiation (toyCfg true) none 0 (newConn none none (60, 0))).1.c, ?_, by decide, by decide, by decide⟩
+  have h := (startNeg_ok (cfg := toyCfg true) (w0 := none) (i := 0) none none (60, 0) (by simp)).1
+  have hw : (startNegotiation (toyCfg true) none 0 (newConn none none (60, 0))).1.winner = none := by decide
+  rw [hw] at h; exact h
 
 end WV.Props.C07
